@@ -1,8 +1,11 @@
 """
-Second party of the C20 hand-off scenario: a fresh interpreter (own PYTHONHASHSEED) loads a model that
-another interpreter serialised, computes its observables through the public API and prints them as JSON.
+Second party of the C20 scenarios: a fresh interpreter with its own PYTHONHASHSEED.
 
-usage: python -m sim.handoff <file.dill> <template> <class> <horizon>
+  hand-off:    python -m sim.handoff <file.dill> <template> <class> <horizon>
+               loads a model that another interpreter serialised and prints its observables as JSON
+  clean room:  python -m sim.handoff --log <file.json>
+               builds a model from its template, replays a logical log of public mutators on it (nothing else has
+               ever happened in this process) and prints observables + which mutators raised
 """
 
 import json
@@ -11,7 +14,6 @@ import sys
 
 
 def main():
-    path, tname, cls, horizon = sys.argv[1], sys.argv[2], sys.argv[3], int(sys.argv[4])
     import warnings
     warnings.filterwarnings("ignore")
     real_stdout = os.dup(1)
@@ -20,9 +22,24 @@ def main():
     import irispie as ir
     from sim.worlds import model_zoo as zoo
     zoo._irispie()
-    m = ir.load(path)
-    ad = zoo.ADAPTERS[cls]
-    out = {"cheap": ad.cheap(m), "deep": ad.deep(m, tname, horizon)}
+    if sys.argv[1] == "--log":
+        with open(sys.argv[2]) as f:
+            doc = json.load(f)
+        ad = zoo.ADAPTERS[doc["cls"]]
+        m = ad.build(doc["tname"])
+        raised = []
+        for op in doc["log"]:
+            try:
+                m = ad.mutate(m, op)
+                raised.append(None)
+            except Exception as e:
+                raised.append(type(e).__name__)
+        out = {"cheap": ad.cheap(m), "deep": ad.deep(m, doc["tname"], doc["horizon"]), "raised": raised}
+    else:
+        path, tname, cls, horizon = sys.argv[1], sys.argv[2], sys.argv[3], int(sys.argv[4])
+        m = ir.load(path)
+        ad = zoo.ADAPTERS[cls]
+        out = {"cheap": ad.cheap(m), "deep": ad.deep(m, tname, horizon)}
     os.dup2(real_stdout, 1)
     sys.stdout = os.fdopen(1, "w", closefd=False)
     print(json.dumps(out))
